@@ -5,6 +5,7 @@ package main
 // KNOWN-FINDING / VIOLATION lines; `vmon replay <file>` re-executes an explicit history.
 
 import (
+	"runtime/debug"
 	sdk "github.com/cosmos/cosmos-sdk/types"
 	"bufio"
 	"encoding/json"
@@ -311,6 +312,9 @@ func ReplayHistory(w *World, def *CheckDef, h *History, trace bool) *Report {
 		defer func() {
 			if p := recover(); p != nil {
 				rep.Inconclusive(fmt.Sprintf("harness panic: %v %s", p, shortStack()))
+				if trace {
+					fmt.Println(string(debug.Stack()))
+				}
 			}
 		}()
 		for _, s := range h.Steps {
